@@ -43,6 +43,10 @@ IN_KINDS = {
     "single": ((7,), [7, 8, (7,), 7.0]),
     "neg": ((-1, -2.5, "x"), [-1, -2.5, "x", 1, 2.5]),
     "deep": ((1, (2, (3, 4))), [1, (2, (3, 4)), (3, 4), 2]),
+    # a string literal on the right of in / not in: Python's substring test
+    "strlit": ("france", ["fr", "france", "x", "", "ance", "f", "rf", "France"]),
+    "strlit1": ("a", ["a", "", "b", "aa"]),
+    "strlit0": ("", ["", "a"]),
     # long gap-free integer tuples (a tempting "range check" rewrite) and a long one with a gap
     "run8": (tuple(range(3, 11)), [3, 10, 2, 11, 6.5, 6.0, 3.0000001, "6", float("nan"), float("inf"), None]),
     "run10": (tuple(range(3, 13)), [3, 12, 13, 7.5, 7.0, -7, "7", float("nan")]),
@@ -89,6 +93,8 @@ def expressible(v):
 
 
 def term_of(v):
+    if isinstance(v, str):
+        return ("lit", v)
     if isinstance(v, tuple):
         return ("tup", tuple(term_of(x) for x in v))
     return ("lit", v)
